@@ -33,7 +33,7 @@ MANIFEST = {
             "same failure. flattenAll iterates this; definitions are collected before flattening. T-asm (C13) ties flatten to "
             "Assembler::push / expand_macro.",
     "note": "Trusted: Lean kernel; Asm/Assemble.lean (expand_macro as repaired) tied by the differential run; freshness of the random "
-            "suffixes (no collision with user labels) is an assumption about rand; the statement is about item lists, independence of "
-            "the bytes from the chosen suffixes is exercised (every case is assembled twice) but not proved.",
+            "suffixes (no collision with user labels) is an assumption about rand; the statement is about item lists; GIVEN freshness, the bytes "
+            "do not depend on the chosen suffixes (C02_suffix_independent); every case is also assembled twice by the real code.",
     "technique": "Lean 4 proof (expansion step lemma over the specification's flatten) + differential correspondence + Python hygienic-expansion oracle",
 }
